@@ -87,17 +87,18 @@ class Namer:
 name = Namer()
 
 class GV:
-    """guarded set of concrete alternatives (mutually exclusive guards, jointly exhaustive under the path guard)"""
+    """guarded set of alternatives (mutually exclusive guards, jointly exhaustive under the path guard);
+    an alternative's value is a python int or, for symbolic data, a z3 bit-vector term"""
     __slots__ = ('alts', 'w', '_z')
     def __init__(s, alts, w): s.alts = alts; s.w = w; s._z = None
     def z(s):
         if s._z is None:
-            e = bvval(s.alts[-1][1], s.w)
+            e = Z(s.alts[-1][1], s.w)
             for g, v in reversed(s.alts[:-1]):
-                e = fIf(g, bvval(v, s.w), e)
+                e = fIf(g, Z(v, s.w), e)
             s._z = e
         return s._z
-    def __repr__(s): return 'GV%d{%s}' % (s.w, ','.join('%#x' % v for _, v in s.alts))
+    def __repr__(s): return 'GV%d{%s}' % (s.w, ','.join(('%#x' % v) if isinstance(v, int) else 'sym' for _, v in s.alts))
 
 def mask(v, w): return v & ((1 << w) - 1)
 def tosigned(v, w): return v - (1 << w) if v >> (w - 1) else v
@@ -106,40 +107,82 @@ def Z(v, w):
     if isinstance(v, GV): return v.z()
     return v
 def alts_of(v):
-    if isinstance(v, int): return [(True, v)]
     if isinstance(v, GV): return v.alts
-    return None
+    return [(True, v)]
 def deep_alts(v, limit=64):
-    """enumerate a z3 ite-tree of bit-vector literals; None entries mark non-enumerable leaves"""
-    if isinstance(v, int): return [(True, v)]
-    if isinstance(v, GV): return v.alts
+    """alternatives with python-int values where possible; a z3 leaf that is an ite-tree of literals is expanded,
+    other symbolic leaves are returned as None (non-enumerable)"""
     out = []
     def walk(e, g, depth):
         if z3.is_bv_value(e): out.append((g, e.as_long())); return
-        if z3.is_app_of(e, z3.Z3_OP_ITE) and depth < 200 and len(out) < limit:
+        if z3.is_app_of(e, z3.Z3_OP_ITE) and depth < 60 and len(out) < limit:
             c, a, b = e.children()
             walk(a, gand(g, c), depth + 1); walk(b, gand(g, gnot(c)), depth + 1); return
         out.append((g, None))
-    walk(z3.simplify(v), True, 0)
+    for g, x in alts_of(v):
+        if isinstance(x, int): out.append((g, x))
+        else: walk(x, g, 0)
     return out
 MAXALT = 24
+PRUNE_AT = 8
+class Pruner:
+    """drops alternatives whose guard is unsatisfiable under the constraints collected so far (incremental SAT).
+    Needed because the merged state applies every operation to every alternative, creating values no schedule can produce."""
+    def __init__(s):
+        s.S = None; s.nd = 0; s.na = 0; s.calls = 0; s.dropped = 0; s.time = 0.0; s.assumes = None; s.enabled = True
+    def reset(s, assumes):
+        s.S = z3.SolverFor('QF_FD'); s.S.set('timeout', 5000); s.nd = 0; s.na = 0; s.assumes = assumes; s.calls = 0; s.dropped = 0; s.time = 0.0
+    def sat(s, g):
+        import time as _t
+        t0 = _t.time()
+        S = s.S
+        for a in name.defs[s.nd:]: S.add(a)
+        s.nd = len(name.defs)
+        for a in s.assumes[s.na:]: S.add(a)
+        s.na = len(s.assumes)
+        s.calls += 1
+        if _C.Z3_get_app_num_args(_cr, g.ast) != 0:      # QF_FD wants a propositional literal
+            b = name(g) if not z3.is_not(g) else None
+            if b is None:
+                S.push(); S.add(g); r = S.check(); S.pop(); s.time += _t.time() - t0; return r != z3.unsat
+            g = b
+            for a in name.defs[s.nd:]: S.add(a)
+            s.nd = len(name.defs)
+        r = S.check(g)
+        s.time += _t.time() - t0
+        return r != z3.unsat
+    def prune(s, d):
+        if s.S is None or not s.enabled: return d
+        out = {}
+        for k, (g, v) in d.items():
+            if isinstance(g, bool): out[k] = (g, v); continue
+            g = name(g)
+            if z3.is_not(g): g = name(gand(g, g)) if False else g
+            if s.sat(g): out[k] = (g, v)
+            else: s.dropped += 1
+        return out
+pruner = Pruner()
+def _vkey(v):
+    return v if isinstance(v, int) else ('z', _aid(v))
 def mk_gv(alts, w):
     d = {}
     for g, v in alts:
         if g is False: continue
-        d[v] = gor(d[v], g) if v in d else g
-    if len(d) == 1: return next(iter(d))
+        k = _vkey(v); o = d.get(k)
+        d[k] = (gor(o[0], g), v) if o is not None else (g, v)
+    if len(d) > PRUNE_AT: d = pruner.prune(d)
+    if len(d) == 1: return next(iter(d.values()))[1]
     if not d: return 0
-    return GV([(name(g), v) for v, g in d.items()], w)
+    return GV([(name(g), v) for g, v in d.values()], w)
 def ite(g, a, b, w):
     if g is True: return a
     if g is False: return b
     if a is b: return a
     if isinstance(a, tuple):
         return tuple(ite(g, x, y, ww) for x, y, ww in zip(a, b, w))
+    if isinstance(a, int) and isinstance(b, int) and a == b: return a
     aa, bb = alts_of(a), alts_of(b)
-    if aa is not None and bb is not None and len(aa) + len(bb) <= MAXALT:
-        if isinstance(a, int) and isinstance(b, int) and a == b: return a
+    if len(aa) + len(bb) <= MAXALT:
         ng = gnot(g)
         return mk_gv([(gand(g, x), v) for x, v in aa] + [(gand(ng, x), v) for x, v in bb], w)
     return fIf(g, Z(a, w), Z(b, w))
@@ -172,12 +215,7 @@ def _cbin(op, x, y, w):
         return x if ((sx >= sy) == (op in ('max', 'umax'))) else y
     if op == 'nand': return mask(~(x & y), w)
     raise Exception(op)
-def binop(op, a, b, w):
-    aa, bb = alts_of(a), alts_of(b)
-    if aa is not None and bb is not None and len(aa) * len(bb) <= MAXALT:
-        if isinstance(a, int) and isinstance(b, int): return _cbin(op, a, b, w)
-        return mk_gv([(gand(g1, g2), _cbin(op, x, y, w)) for g1, x in aa for g2, y in bb], w)
-    x, y = Z(a, w), Z(b, w)
+def _zbin(op, x, y):
     if op == 'add': return x + y
     if op == 'sub': return x - y
     if op == 'mul': return x * y
@@ -197,26 +235,49 @@ def binop(op, a, b, w):
     if op == 'min': return z3.If(x <= y, x, y)
     if op == 'nand': return ~(x & y)
     raise Exception(op)
+def binop(op, a, b, w):
+    if isinstance(a, int) and isinstance(b, int): return _cbin(op, a, b, w)
+    aa, bb = alts_of(a), alts_of(b)
+    if len(aa) * len(bb) <= MAXALT:
+        out = []
+        for g1, x in aa:
+            for g2, y in bb:
+                if isinstance(x, int) and isinstance(y, int): v = _cbin(op, x, y, w)
+                elif isinstance(y, int) and y == 0 and op in ('add', 'sub', 'or', 'xor', 'shl', 'lshr', 'ashr'): v = x
+                elif isinstance(x, int) and x == 0 and op in ('add', 'or', 'xor'): v = y
+                else: v = _zbin(op, Z(x, w), Z(y, w))
+                out.append((gand(g1, g2), v))
+        return mk_gv(out, w)
+    return _zbin(op, Z(a, w), Z(b, w))
 
 def _ccmp(pred, x, y, w):
     if pred == 'eq': return x == y
     if pred == 'ne': return x != y
     if pred[0] == 's': x, y = tosigned(x, w), tosigned(y, w)
     return {'gt': x > y, 'ge': x >= y, 'lt': x < y, 'le': x <= y}[pred[1:]]
+def _zcmp(pred, x, y):
+    return {'eq': lambda: x == y, 'ne': lambda: x != y, 'ugt': lambda: z3.UGT(x, y), 'uge': lambda: z3.UGE(x, y),
+            'ult': lambda: z3.ULT(x, y), 'ule': lambda: z3.ULE(x, y), 'sgt': lambda: x > y, 'sge': lambda: x >= y,
+            'slt': lambda: x < y, 'sle': lambda: x <= y}[pred]()
 def icmp(pred, a, b, w):
     """returns a guard"""
+    if isinstance(a, int) and isinstance(b, int): return _ccmp(pred, a, b, w)
     aa, bb = alts_of(a), alts_of(b)
-    if aa is not None and bb is not None and len(aa) * len(bb) <= 4 * MAXALT:
+    if len(aa) * len(bb) <= 4 * MAXALT:
         r = False
         for g1, x in aa:
             for g2, y in bb:
-                if _ccmp(pred, x, y, w): r = gor(r, gand(g1, g2))
+                if isinstance(x, int) and isinstance(y, int):
+                    if _ccmp(pred, x, y, w): r = gor(r, gand(g1, g2))
+                else:
+                    r = gor(r, gand(gand(g1, g2), _zcmp(pred, Z(x, w), Z(y, w))))
         return r
-    x, y = Z(a, w), Z(b, w)
-    r = {'eq': lambda: x == y, 'ne': lambda: x != y, 'ugt': lambda: z3.UGT(x, y), 'uge': lambda: z3.UGE(x, y),
-         'ult': lambda: z3.ULT(x, y), 'ule': lambda: z3.ULE(x, y), 'sgt': lambda: x > y, 'sge': lambda: x >= y,
-         'slt': lambda: x < y, 'sle': lambda: x <= y}[pred]()
-    return fold(z3.simplify(r)) if False else r
+    return _zcmp(pred, Z(a, w), Z(b, w))
+def mapv(v, fc, fz, w):
+    """apply a unary operation alternative-wise: fc on ints, fz on z3 terms"""
+    if isinstance(v, int): return fc(v)
+    if isinstance(v, GV): return mk_gv([(g, fc(x) if isinstance(x, int) else fz(x)) for g, x in v.alts], w)
+    return fz(v)
 def b2v(g):
     if g is True: return 1
     if g is False: return 0
@@ -226,10 +287,12 @@ def v2b(v):
     if isinstance(v, GV):
         r = False
         for g, x in v.alts:
-            if x & 1: r = gor(r, g)
+            if isinstance(x, int):
+                if x & 1: r = gor(r, g)
+            else: r = gor(r, gand(g, x == bvval(1, 1)))
         return r
     if z3.is_bool(v): return v
-    return v == z3.BitVecVal(1, 1)
+    return v == bvval(1, 1)
 def ite_g(c, a, b):
     if c is True: return a
     if c is False: return b
